@@ -121,6 +121,10 @@ pub fn noise_vector(a: &Alphabet, rng: &mut Rng, max_len: usize) -> Vec<Vec<u8>>
     let n = rng.below(max_len + 1);
     let mut v = Vec::new();
     let mut tok = 0;
+    // evaluation cost grows with the third power of the number of items a cluster expands to
+    // (repeated adjacent groups re-scan and clone the whole state per block): the long items of
+    // one vector share one length budget
+    let mut long_budget = LONG_ITEM_MAX.with(|m| m.get());
     for _ in 0..n {
         match rng.below(12) {
             0 | 1 if !a.flags.is_empty() => v.push(spell_name(rng.pick(&a.flags), rng)),
@@ -187,10 +191,11 @@ pub fn noise_vector(a: &Alphabet, rng: &mut Rng, max_len: usize) -> Vec<Vec<u8>>
                 };
                 v.push(spell_name(&h, rng));
             }
-            9 if rng.chance(1, 8) => {
+            9 if long_budget >= 400 && rng.chance(1, 8) => {
                 // very long cluster / word (evaluation cost grows quadratically with it for some
                 // shapes, so the quick tier stays shorter)
-                let len = rng.range(400, LONG_ITEM_MAX.with(|m| m.get()));
+                let len = rng.range(400, long_budget);
+                long_budget -= len;
                 let c = a
                     .flags
                     .iter()
